@@ -362,6 +362,30 @@ def int_array_option_case():
   return fn
 
 
+def array_layout_option_case():
+  """NOT solver-decided (memory layout is C-level): an SPD array given as prior / init in Fortran order, as a transposed view or as a
+  strided view is used like the same numbers in a C-contiguous array, is returned as given, and is left untouched"""
+  def fn(ctx):
+    U = _u()
+    rs = np.random.RandomState(6)
+    for d in (2, 3, 4, 6):
+      B = rs.randn(d, d)
+      A = B @ B.T + d * np.eye(d)
+      big = np.zeros((2 * d, 2 * d))
+      big[::2, ::2] = A
+      X = rs.randn(12, 2, d)
+      for nm, Av in (('fortran', np.asfortranarray(A)), ('transposed_view', np.ascontiguousarray(A.T).T), ('strided_view', big[::2, ::2])):
+        keep = np.array(Av, copy=True)
+        for strict in (False, True):
+          M, Mi = U._initialize_metric_mahalanobis(X, Av, return_inverse=True, strict_pd=strict, matrix_name='prior')
+          ctx.require('array_option_%s_used_as_given' % nm, ctx.cond(np.allclose(M, A, rtol=1e-12, atol=1e-12)))
+          ctx.require('array_option_%s_inverse_is_the_inverse' % nm, ctx.cond(np.allclose(Mi @ A, np.eye(d), rtol=1e-8, atol=1e-8)))
+          ctx.require('array_option_%s_untouched' % nm, ctx.cond(np.array_equal(Av, keep)))
+        L = U.components_from_metric(Av)
+        ctx.require('conversion_%s_squares_to_the_matrix' % nm, ctx.cond(np.allclose(L.T @ L, A, rtol=1e-10, atol=1e-10) and np.array_equal(Av, keep)))
+  return fn
+
+
 def init_simple_case():
   def fn(ctx):
     U = _u()
@@ -554,6 +578,9 @@ def cases(tier, seed):
   out.append(case('init_cov_triplets_d1', init_cov_case(3, 1, 1), FUNCS, '1 triplet of arbitrary points in R^1', cost=5, max_paths=100000))
   out.append(case('init_cov_points_d2', init_cov_case(0, 2, 3), FUNCS, '3 arbitrary points in R^2 (no de-duplication for plain points)', cost=5))
   out.append(case('init_array_d2', init_array_case(2), FUNCS, 'arbitrary real 2x2 array as prior/init, strict_pd in {False, True}', cost=20))
+  out.append(case('array_layout_options', array_layout_option_case(), FUNCS,
+                  'SPD arrays of size 2, 3, 4, 6 as prior / init in Fortran order, as transposed view, as strided view (concrete, sampled; not solver-decided)',
+                  concrete_only=True, validate=1, cost=2))
   out.append(case('int_array_options', int_array_option_case(), FUNCS,
                   'integer-dtype SPD arrays (int64, int32, uint8) as prior / init of ITML, MMC, LSML, SDML, NCA, LMNN, MLKR on one data set (concrete, sampled; not solver-decided)',
                   concrete_only=True, validate=1, cost=5))
